@@ -84,7 +84,11 @@ def generate(outdir, seed, npools, nversions):
         for vi, ver in enumerate(versions):
             ents = [(pool[e]["alts"][a], pool[e]["id"], act) for (e, a, act) in ver]
             nm = "P%dV%d" % (pi, vi)
-            t = tg.table(ents, nm, hk)
+            # some definitions give scalar / string entries a default member initialiser: their default-constructed state is not all-empty
+            # (legal: Entry is constructible from a value); data that lacks such an entry must still read as empty
+            dflt = {"std::uint64_t": "{7u}", "std::int16_t": "{static_cast<std::int16_t>(-3)}", "double": "{1.5}", "std::string": "{std::string(\"dflt\")}"}
+            inits = [(dflt.get(ty.cpp) if (act and rng.random() < 0.35) else None) for (ty, _i, act) in ents]
+            t = tg.table(ents, nm, hk, inits=inits)
             s = tg.struct([tg.Member(t), tg.Member(tg.prim("u32"))], nm + "_S")                                   # table inside a structure, followed by more data
             v = tg.vec(t)                                                                                       # tables inside a vector
             o = tg.table([(t, 1, True), (tg.prim("u16"), 2, True)], nm + "_O", ("hash", 4242))                  # table inside an entry of another table
